@@ -18,9 +18,15 @@ use std::{
 #[derive(Clone, Debug)]
 pub struct Op {
     pub side: usize,
-    pub read: bool,
+    /// RD / WR / FL
+    pub kind: u8,
     pub n: usize,
 }
+pub const RD: u8 = 0;
+pub const WR: u8 = 1;
+/// one poll of the carrier's flush that moves n units from its private buffer to the wire
+pub const FL: u8 = 2;
+const KIND: [&str; 3] = ["read", "write", "flush"];
 
 /// Incremental tagger: assigns a unit id to every byte written into one direction.
 /// Frame mode: every varint length byte is a unit, the body is two units (first half /
@@ -88,6 +94,10 @@ impl Tagger {
 
 struct Dir {
     q: VecDeque<(u8, u32)>,
+    /// carrier of the writing side buffers until flushed: `poll_write` appends here, `poll_flush`
+    /// moves bytes to `q` (possibly over several polls)
+    buffering: bool,
+    pbuf: VecDeque<(u8, u32)>,
     tagger: Tagger,
     writer_gone: bool,
     reader_gone: bool,
@@ -123,11 +133,11 @@ pub struct Shared {
 pub type Sh = Rc<RefCell<Shared>>;
 
 impl Shared {
-    pub fn new(script: Vec<Op>, rng: StdRng, p_pend: f64) -> Sh {
-        let mk = || Dir { q: VecDeque::new(), tagger: Tagger::new(), writer_gone: false, reader_gone: false };
+    pub fn new(script: Vec<Op>, rng: StdRng, p_pend: f64, buffering: [bool; 2]) -> Sh {
+        let mk = |b: bool| Dir { q: VecDeque::new(), buffering: b, pbuf: VecDeque::new(), tagger: Tagger::new(), writer_gone: false, reader_gone: false };
         let mode = if script.is_empty() { Mode::Free } else { Mode::Script };
         Rc::new(RefCell::new(Shared {
-            dirs: [mk(), mk()],
+            dirs: [mk(buffering[0]), mk(buffering[1])],
             script,
             pos: 0,
             mode,
@@ -175,7 +185,7 @@ impl Shared {
     }
     /// In script mode: is the next entry for `side` with direction `read`?  Ok(Some(n)) = serve
     /// n units, Ok(None) = yield (other side's turn / injected Pending), Err = drifted to free mode.
-    fn script_entry(&mut self, side: usize, read: bool) -> Result<Option<usize>, ()> {
+    fn script_entry(&mut self, side: usize, kind: u8) -> Result<Option<usize>, ()> {
         if self.pos >= self.script.len() {
             self.mode = Mode::Free;
             return Err(());
@@ -185,8 +195,8 @@ impl Shared {
             self.injected = true; // yield to the scheduler: the other side moves first
             return Ok(None);
         }
-        if op.read != read {
-            self.set_drift(format!("side {} did a {} where the model does a {}", side, if read { "read" } else { "write" }, if op.read { "read" } else { "write" }));
+        if op.kind != kind {
+            self.set_drift(format!("side {} did a {} where the model does a {}", side, KIND[kind as usize], KIND[op.kind as usize]));
             return Err(());
         }
         if self.pended_entry != self.pos && self.inject() {
@@ -223,7 +233,7 @@ impl AsyncRead for Endpoint {
         }
         let from = 1 - me;
         if sh.mode == Mode::Script {
-            match sh.script_entry(me, true) {
+            match sh.script_entry(me, RD) {
                 Ok(None) => return Poll::Pending,
                 Ok(Some(0)) => {
                     if sh.dirs[from].q.is_empty() && sh.dirs[from].writer_gone {
@@ -301,7 +311,7 @@ impl AsyncWrite for Endpoint {
         let app = p >= sh.app_range[me].0 && p < sh.app_range[me].1;
         let mut take: Option<usize> = None;
         if sh.mode == Mode::Script {
-            match sh.script_entry(me, false) {
+            match sh.script_entry(me, WR) {
                 Ok(None) => return Poll::Pending,
                 Ok(Some(0)) => {
                     if sh.dirs[me].reader_gone {
@@ -341,7 +351,8 @@ impl AsyncWrite for Endpoint {
                 Err(()) => {}
             }
         }
-        if sh.dirs[me].reader_gone {
+        // a buffering carrier accepts the bytes; a vanished reader shows at the flush
+        if sh.dirs[me].reader_gone && !sh.dirs[me].buffering {
             sh.progress += 1;
             return Poll::Ready(Err(io::ErrorKind::BrokenPipe.into()));
         }
@@ -364,19 +375,94 @@ impl AsyncWrite for Endpoint {
                 sh.eat = false;
                 continue;
             }
-            sh.dirs[me].q.push_back((*b, u));
+            if sh.dirs[me].buffering {
+                sh.dirs[me].pbuf.push_back((*b, u));
+            } else {
+                sh.dirs[me].q.push_back((*b, u));
+            }
         }
         sh.progress += 1;
         Poll::Ready(Ok(k))
     }
 
     fn poll_flush(self: Pin<&mut Self>, _cx: &mut Context<'_>) -> Poll<io::Result<()>> {
-        let mut sh = self.sh.borrow_mut();
+        let me = self.side;
+        let mut guard = self.sh.borrow_mut();
+        let sh = &mut *guard;
         sh.io_ops += 1;
-        if sh.inject() {
-            return Poll::Pending;
+        if sh.dirs[me].pbuf.is_empty() {
+            // nothing held back (always the case for a write-through carrier)
+            if sh.inject() {
+                return Poll::Pending;
+            }
+            return Poll::Ready(Ok(()));
         }
-        Poll::Ready(Ok(()))
+        let mut take: Option<usize> = None;
+        if sh.mode == Mode::Script {
+            match sh.script_entry(me, FL) {
+                Ok(None) => return Poll::Pending,
+                Ok(Some(0)) => {
+                    if sh.dirs[me].reader_gone {
+                        sh.pos += 1;
+                        sh.progress += 1;
+                        return Poll::Ready(Err(io::ErrorKind::BrokenPipe.into()));
+                    }
+                    sh.set_drift("model expects a flush error, reader still present".into());
+                }
+                Ok(Some(n)) => {
+                    let mut units = 0usize;
+                    let mut bytes = 0usize;
+                    let mut last = 0u32;
+                    for (i, (_, u)) in sh.dirs[me].pbuf.iter().enumerate() {
+                        if i == 0 || *u != last {
+                            if units == n {
+                                break;
+                            }
+                            units += 1;
+                            last = *u;
+                        }
+                        bytes += 1;
+                    }
+                    if units == n {
+                        take = Some(bytes);
+                        sh.pos += 1;
+                    } else {
+                        sh.set_drift(format!("flush of {} units impossible (carrier holds {} units)", n, units));
+                    }
+                }
+                Err(()) => {}
+            }
+        }
+        if sh.dirs[me].reader_gone {
+            sh.progress += 1;
+            return Poll::Ready(Err(io::ErrorKind::BrokenPipe.into()));
+        }
+        let k = match take {
+            Some(k) => k,
+            None => {
+                if sh.inject() {
+                    return Poll::Pending;
+                }
+                let len = sh.dirs[me].pbuf.len();
+                match sh.rng.gen_range(0..4) {
+                    0 => 1,
+                    1 | 2 => len,
+                    _ => sh.rng.gen_range(1..=len),
+                }
+            }
+        };
+        for _ in 0..k {
+            let x = sh.dirs[me].pbuf.pop_front().unwrap();
+            sh.dirs[me].q.push_back(x);
+        }
+        sh.progress += 1;
+        if sh.dirs[me].pbuf.is_empty() {
+            Poll::Ready(Ok(()))
+        } else {
+            // partial progress: the flush has to be polled again
+            sh.injected = true;
+            Poll::Pending
+        }
     }
 
     fn poll_close(self: Pin<&mut Self>, _cx: &mut Context<'_>) -> Poll<io::Result<()>> {
